@@ -1104,7 +1104,9 @@ def term_L(case, obs):
 
 
 def fr(s):
-    return float(Fraction(s))
+    """a number rendered by Run/C06.v q_s: <hex numerator>/<hex denominator>"""
+    a, b = s.split('/')
+    return float(Fraction(int(a, 16), int(b, 16)))
 
 
 def parse_cross(seg):
@@ -1340,9 +1342,18 @@ def run(ctx):
     nshard = -(-len(terms) // per_file) if terms else 1
     by_size = sorted(range(len(terms)), key=lambda i: -len(terms[i]))
     dealt = [i for k in range(nshard) for i in by_size[k::nshard]]
+    # numbers that occur many times (baud rates, slot widths, band edges, usual offsets / pmd / pdl ...) are parsed once per
+    # file: they become named constants of the generated files' prelude
+    import re
+    from collections import Counter
+    lit = re.compile(r'\(fq (?:\(-\d+\)|\d+) (?:\(-\d+\)|\d+)\)')
+    freq = Counter(m for t in terms for m in lit.findall(t))
+    names = {tok: f'c06q{k}' for k, (tok, cnt) in enumerate(freq.most_common(400)) if cnt >= 6}
+    prelude = '\n'.join(f'Definition {nm} : Q := {tok[1:-1]}.' for tok, nm in names.items())
+    terms = [lit.sub(lambda m: names.get(m.group(0), m.group(0)), t) for t in terms]
     try:
         res = common.coq_eval('C06', 'Prelude Model.Roadm Run.C06', [terms[i] for i in dealt],
-                              per_file=per_file, tag=tag, timeout=3000)
+                              per_file=per_file, tag=tag, timeout=3000, prelude=prelude)
         lines = [None] * len(terms)
         for i, ln in zip(dealt, res):
             lines[i] = ln
